@@ -74,6 +74,10 @@ def gen(seed, tier):
         out.append(f"matmul@{ty} a2x2:{big},{big},1,0 a2x2:1,0,1,1")
         out.append(f"vdot@{ty} a2:{big},{big} a2:1,1")
         out.append(f"inner@{ty} a2:{big},{big} a2:1,1")
+    # equally shaped stacks whose blocks do not conform ([k,m,n] @ [k,m,n], m != n) are refused (seeded change C14p)
+    for sh in ([2, 3, 2], [1, 3, 2], [3, 2, 1], [2, 4, 2], [2, 2, 3], [3, 1, 2], [2, 2, 5], [2, 2, 3, 2], [2, 1, 2, 3]):
+        for ty in ("i32", "f64"):
+            out.append(f"matmul@{ty} {arr(sh, vals(rng, prod(sh)))} {arr(sh, vals(rng, prod(sh)))}")
     out.append("matmul@f32 a2x2:4097,-4096,1,0 a2x2:4097,0,4098,1")
     out.append("matmul@i16 a2x2:300,300,1,0 a2x2:300,0,-300,1")
     out.append("inner@f32 a1x3:16777216,1,-16777216 a2x3:1,1,1,0,1,0")
